@@ -16,7 +16,7 @@ rundemo() {
     rm -f "$D/zz_demo_test.go" "$D/jqawk"
   else
     cp "$DIR/demo.sh" "$D/zz_demo.sh"
-    (cd "$D" && timeout 300 sh ./zz_demo.sh >/tmp/seeddemo.$$ 2>&1 </dev/null); rc=$?
+    (cd "$D" && timeout 300 bash ./zz_demo.sh >/tmp/seeddemo.$$ 2>&1 </dev/null); rc=$?
     rm -f "$D/zz_demo.sh" "$D/jqawk"
   fi
   return $rc
